@@ -131,7 +131,9 @@ class ImmediateBindingEvaluator final : public BindingEvaluator
 public:
     static inline ImmediateBindingEvaluator instance()
     {
-        static ImmediateBindingEvaluator evaluator;
+        // One instance per thread: the registry of bindings is not synchronised, and bindings
+        // of different threads must not share state behind the user's back.
+        static thread_local ImmediateBindingEvaluator evaluator;
         return evaluator;
     }
 };
